@@ -348,6 +348,7 @@ def _run(ctx):
         stream_boundary(ctx, pq, root, enums, structs)
         stream_known(ctx, pq, root, enums, structs, specs_names)
         stream_files(ctx, pq)
+        stream_edits(ctx, pq)
     finally:
         w.close()
         pq.close()
@@ -962,6 +963,27 @@ def stream_files(ctx, pq):
             ctx.fail({"component": "writer-call-sites", "kind": "idl-nonconformant", "struct": struct}, dict(case, where=fn), msg)
 
 
+def stream_edits(ctx, pq):
+    """metadata edit paths on foreign-style footers (harness/c10_edits.py)"""
+    from harness import c10_edits as E
+    C.use_shadow()
+    rng = ctx.rng
+    n = 42 if ctx.quick() else 420
+    for i in range(n):
+        case = E.gen_case(rng)
+        case["edit"] = E.EDITS[i % len(E.EDITS)]
+        problems, info = E.run_case(case, ctx.scratch, pq, "e%d" % i)
+        ctx.case({"stream": "edits", "edit_case": case})
+        ctx.count("edits.path", case["edit"])
+        ctx.count("edits.repeated_keys", sum(1 for k, v, w in case["decor"]["kv"] if k == "hist"))
+        if problems:
+            d = case["decor"]
+            cls = {"component": "metadata-edit", "path": case["edit"], "kind": "untouched-metadata-changed"}
+            if "raised" in info:
+                cls["kind"] = "raised"
+            ctx.fail(cls, {"stream": "edits", "edit_case": case}, "; ".join(problems)[:1500])
+
+
 # ---------------------------------------------------------------------------------------------------
 
 def replay(rep):
@@ -970,6 +992,25 @@ def replay(rep):
         print(json.dumps(rep, indent=1)[:6000])
         return 1
     case = rep["case"]
+    if case.get("stream") == "edits":
+        import tempfile
+        import shutil
+        from harness import c10_edits as E
+        C.use_shadow()
+        tmp = tempfile.mkdtemp(prefix="verif-C10-replay-", dir="/tmp")
+        try:
+            pq = C.Pqref()
+            problems, info = E.run_case(case["edit_case"], tmp, pq, "replay")
+            pq.close()
+            print("edit path %s on a foreign-style footer (%s), update %r" % (
+                case["edit_case"]["edit"], ", ".join(k for k, v in case["edit_case"]["decor"].items() if v), case["edit_case"]["update"]))
+            for pr in problems:
+                print("PROPERTY FAILS:", pr)
+            if not problems:
+                print("ok: everything the edit did not name is preserved")
+            return 1 if problems else 0
+        finally:
+            shutil.rmtree(tmp, ignore_errors=True)
     if case.get("stream") == "written-files":
         import tempfile
         import shutil
